@@ -237,8 +237,12 @@ func (gs GenesisState) ValidateUndelegations() error {
 		}
 		return nil
 	}
+	// one transaction can undelegate from several operators, which gives several records
+	// with the same TxHash; what must be unique is the key the record is stored under
 	seenFieldValueFunc := func(undelegation UndelegationRecord) (string, struct{}) {
-		return undelegation.TxHash, struct{}{}
+		return string(GetUndelegationRecordKey(
+			undelegation.BlockNumber, undelegation.LzTxNonce, undelegation.TxHash, undelegation.OperatorAddr,
+		)), struct{}{}
 	}
 	_, err := utils.CommonValidation(gs.Undelegations, seenFieldValueFunc, validationFunc)
 	if err != nil {
